@@ -346,6 +346,57 @@ namespace c09
         static bool is_container() { return false; }
         static std::string show(const Marker &) { return "Marker"; }
     };
+    // a frame type with explicit const serialize(): its sample array is const there, so the raw block is built by the
+    // data<T>(const T*, n) constructor; deserialize() uses the non-const one. And a record with a fixed-size identifier written as a
+    // length-prefixed block of exactly the size the reader offers (an 8-byte id read into char[8]).
+    struct S8
+    {
+        int16_t samples[4] = {0, 0, 0, 0};
+        uint8_t tag = 0;
+        void serialize(igris::archive::binary_serializer_basic &m) const
+        {
+            igris::archive::data<int16_t> blk(samples, 4);
+            m & blk;
+            m.dump(tag);
+        }
+        void deserialize(igris::archive::binary_deserializer_basic &m)
+        {
+            igris::archive::data<int16_t> blk(samples, 4);
+            m & blk;
+            m.load(tag);
+        }
+    };
+    template <> struct Ref<S8>
+    {
+        static S8 gen(kit::Rng &r, GenCfg &c) { S8 s; for (auto &x : s.samples) x = Ref<int16_t>::gen(r, c); s.tag = Ref<uint8_t>::gen(r, c); return s; }
+        static void enc(const S8 &v, std::string &o) { for (auto x : v.samples) Ref<int16_t>::enc(x, o); Ref<uint8_t>::enc(v.tag, o); }
+        static bool eq(const S8 &a, const S8 &b) { return memcmp(a.samples, b.samples, sizeof a.samples) == 0 && a.tag == b.tag; }
+        static bool is_container() { return false; }
+        static std::string show(const S8 &v) { return "S8{" + std::to_string(v.samples[0]) + ",..}"; }
+    };
+    struct B5
+    {
+        char id[8] = {0, 0, 0, 0, 0, 0, 0, 0};
+        uint32_t seq = 0;
+        void serialize(igris::archive::binary_serializer_basic &m) const
+        {
+            m.dump(id, (uint16_t)sizeof id);
+            m.dump(seq);
+        }
+        void deserialize(igris::archive::binary_deserializer_basic &m)
+        {
+            m.load(id, (uint16_t)sizeof id);
+            m.load(seq);
+        }
+    };
+    template <> struct Ref<B5>
+    {
+        static B5 gen(kit::Rng &r, GenCfg &c) { B5 b; for (auto &x : b.id) x = (char)Ref<uint8_t>::gen(r, c); b.seq = Ref<uint32_t>::gen(r, c); return b; }
+        static void enc(const B5 &v, std::string &o) { Ref<uint16_t>::enc(8, o); o.append(v.id, 8); Ref<uint32_t>::enc(v.seq, o); }
+        static bool eq(const B5 &a, const B5 &b) { return memcmp(a.id, b.id, 8) == 0 && a.seq == b.seq; }
+        static bool is_container() { return true; }
+        static std::string show(const B5 &v) { return "B5{seq=" + std::to_string(v.seq) + "}"; }
+    };
     struct P1
     {
         static const char *apiname() { return "archive"; }
@@ -556,6 +607,10 @@ namespace c09
         T1(S7, 0, false);
         T1(std::vector<S7>, 1, true);
         T1(std::vector<Marker>, 1, true);
+        T1(S8, 0, false);
+        T1(std::vector<S8>, 1, true);
+        T1(B5, 1, false);
+        T1(std::vector<B5>, 2, true);
         T1(V1, 1, false);
         T1(std::vector<V1>, 2, true);
 #undef T1
